@@ -123,14 +123,17 @@ def report_oracle(ctx, pid, out):
 # T1: structuring every value that has a typed reading succeeds with a typed reading (Props/Total.lean)
 
 TOTAL_HDR = "import LspVerif.Props.C01\nimport LspVerif.Props.C04\nimport GenEnv\nimport GenBad\nopen LspVerif\n"
+LINK_HDR = "import LspVerif.Props.C01\nimport LspVerif.Props.C04\nimport GenLink\nopen LspVerif\n"
 
 MAIN_REP = """import LspVerif.Driver.Rep
+import GenMeta
 import GenEnv
 import GenBad
-def main : IO Unit := LspVerif.Driver.repMain Gen.env Gen.bad
+def main : IO Unit := LspVerif.Driver.repMain Gen.env Gen.bad (some (LspVerif.customize Gen.model))
 """
 
 LOCALISE = """import LspVerif.Props.C01
+import GenMeta
 import GenEnv
 import GenBad
 open LspVerif
@@ -139,7 +142,20 @@ def main : IO Unit := do
   for t in progFailures Gen.env Gen.bad Gen.progTys do IO.println ("PROG " ++ showT t)
   for c in clsFailures Gen.env Gen.bad Gen.progTys do IO.println ("CLS " ++ c.toString)
   for c in clsFailuresU Gen.env do IO.println ("CLSU " ++ c.toString)
+  for s in structFailures (customize Gen.model) Gen.env Gen.bad do IO.println ("STRUCT-NOT-COVERED " ++ s.toString)
+  for m in messageFailures (customize Gen.model) Gen.env Gen.bad do IO.println ("MESSAGE-NOT-COVERED " ++ m.1.toString ++ " " ++ m.2.toString)
 """
+
+
+def excluded_responses(ctx):
+    """response classes outside the link theorem because their `result` annotation is excluded for an open known finding (method names)"""
+    out = []
+    for k in ctx.known:
+        if k.get("status") == "open":
+            for m in k.get("excluded_response_methods", []):
+                if m not in out:
+                    out.append(m)
+    return out
 
 
 def excluded_annotations(ctx):
@@ -158,6 +174,25 @@ def total_layers(ctx, pid):
     bad = excluded_annotations(ctx)
     genbad = ("GenBad", "import LspVerif.Core.Rep\nimport LspVerif.Core.Name\nopen LspVerif\nnamespace Gen\n"
               f"def bad : List PyTy := {common.lean_list(bad)}\nend Gen\n")
+    genlink = ("GenLink", "import LspVerif.Spec.Link\nimport GenMeta\nimport GenEnv\nimport GenBad\nopen LspVerif\nnamespace Gen\n"
+               "/-- the metamodel with the documented customisation (CompletionItemKind accepts custom values) -/\ndef M : Model := customize Gen.model\n"
+               f"def excludedResponses : List Name := {common.lean_list(common.lean_name(m) for m in excluded_responses(ctx))}\nend Gen\n")
+    nstructs = len(re.findall(r"^def s\d+ : Struct", (ctx.work / "GenMeta.lean").read_text(), re.M))
+    llayer, llemma, limports = tableprop.sliced_all(LINK_HDR, f"{pid}Lk", "Gen.M.structures", "structCovers Gen.M Gen.env Gen.bad", 20, nstructs, f"{pid}_link_structs_chk")
+    linkmsgs = (f"{pid}LkM", LINK_HDR + f"""
+/-- every request and notification class covers its JSON-RPC envelope (jsonrpc, id, method, params as the metamodel declares them) … -/
+theorem {pid}_link_requests : Gen.M.requests.all (requestCovered Gen.M Gen.env Gen.bad) = true := by decide +kernel
+theorem {pid}_link_notifications : Gen.M.notifications.all (notificationCovered Gen.M Gen.env Gen.bad) = true := by decide +kernel
+/-- … and so does every response class, except those whose `result` annotation is excluded for an open known finding — exactly those -/
+theorem {pid}_link_responses : Gen.M.requests.all (fun r => responseCovered Gen.M Gen.env Gen.bad r != Gen.excludedResponses.contains r.method) = true := by decide +kernel
+/-- the two range validators (bodies translated from validators.py on this run) accept their range -/
+theorem {pid}_link_int32 (i : Int) (h : inInt32 i = true) : (Gen.env.vld.int32 (.int i)).accepted = true := by
+  simp only [inInt32, Bool.and_eq_true, decide_eq_true_eq] at h
+  simp [Gen.env, Gen.vldEnv, Gen.integer_validator, VR.accepted, h.1, h.2]
+theorem {pid}_link_uint31 (i : Int) (h : inUInt31 i = true) : (Gen.env.vld.uint31 (.int i)).accepted = true := by
+  simp only [inUInt31, Bool.and_eq_true, decide_eq_true_eq] at h
+  simp [Gen.env, Gen.vldEnv, Gen.uinteger_validator, VR.accepted, h.1, h.2]
+""")
     txt = (ctx.work / "GenPkg.lean").read_text()
     ncls = len(re.findall(r"^def c\d+ : Cls", txt, re.M))
     layer, lemma, imports = tableprop.sliced_all(TOTAL_HDR, f"{pid}T1c", "Gen.env.pkg.classes", "clsOK Gen.env Gen.bad Gen.progTys", 24, ncls, f"{pid}_T1_classes_chk")
@@ -168,7 +203,7 @@ theorem {pid}_T1_progs : progsOK Gen.env Gen.bad Gen.progTys = true := by decide
 theorem {pid}_T1_excluded_are_rejected : Gen.bad.all (fun t => inU Gen.progTys t && !(progOK Gen.env [] Gen.progTys t)) = true := by decide +kernel
 """)
     progs = (f"{pid}T1p", progs[1])
-    final = imports + f"import {pid}T1p\n" + TOTAL_HDR + lemma + f"""
+    final = imports + limports + f"import {pid}T1p\nimport {pid}LkM\n" + LINK_HDR + lemma + llemma + f"""
 theorem {pid}_T1_classes : clsesOK Gen.env Gen.bad Gen.progTys = true := {pid}_T1_classes_chk
 
 /-- **T1 on the regenerated package.**  For every annotation that passes the structural closure
@@ -224,6 +259,40 @@ example : (match structTy Gen.env 30 (.cls n!"OptionalVersionedTextDocumentIdent
              | .error _ => false)
            | .error _ => false) = true := by decide +kernel
 
+/-- the kernel-checked facts of this run, bundled -/
+theorem {pid}_checked : Checked Gen.M Gen.env Gen.bad Gen.progTys :=
+  ⟨{pid}_T1_progs, {pid}_T1_classes, {pid}_T2_classes, {pid}_T1_roots, {pid}_link_structs_chk, {pid}_link_int32, {pid}_link_uint31⟩
+
+/-- **C01 / C03 / C14 for metamodel-valid values** (the property's own quantifier): a JSON value with distinct keys that is valid
+    (strictly, closed) for a metamodel type `T` round-trips at every annotation `A` of the package that covers `T`. -/
+theorem {pid}_metamodel_type (T : Ty) (A : PyTy) (n k m : Nat) (hann : annOK Gen.M Gen.env Gen.bad n T A = true)
+    (hty : lightOK Gen.env Gen.bad Gen.progTys k A = true) (j : Json) (hv : validTyC Gen.M m T j = true) (hw : Wf j) :
+    RoundTrips Gen.env Gen.bad A j := {pid}_checked.roundtrip_ty hann hty hv hw
+
+/-- every structure of the metamodel -/
+theorem {pid}_metamodel_structures (s : Struct) (hs : s ∈ Gen.M.structures) (j : Json) (hv : validStructC Gen.M s j = true) (hw : Wf j) :
+    RoundTrips Gen.env Gen.bad (.cls s.name) j := {pid}_checked.roundtrip_struct hs hv hw
+
+/-- every request, every notification, and every response except the excluded ones: the message class is the one the catalogue names -/
+theorem {pid}_metamodel_requests (r : Request) (hr : r ∈ Gen.M.requests) (j : Json) (hv : validRequestC Gen.M r j = true) (hw : Wf j) :
+    ∃ e, entryOf Gen.env r.method = some e ∧ RoundTrips Gen.env Gen.bad (.cls e.req) j :=
+  {pid}_checked.roundtrip_request (List.all_eq_true.mp {pid}_link_requests r hr) hv hw
+theorem {pid}_metamodel_notifications (nt : Notification) (hn : nt ∈ Gen.M.notifications) (j : Json) (hv : validNotificationC Gen.M nt j = true) (hw : Wf j) :
+    ∃ e, entryOf Gen.env nt.method = some e ∧ RoundTrips Gen.env Gen.bad (.cls e.req) j :=
+  {pid}_checked.roundtrip_notification (List.all_eq_true.mp {pid}_link_notifications nt hn) hv hw
+theorem {pid}_metamodel_responses (r : Request) (hr : r ∈ Gen.M.requests) (hx : Gen.excludedResponses.contains r.method = false)
+    (j : Json) (hv : validResponseC Gen.M r j = true) (hw : Wf j) :
+    ∃ e rn, entryOf Gen.env r.method = some e ∧ e.resp = some rn ∧ RoundTrips Gen.env Gen.bad (.cls rn) j := by
+  have h := List.all_eq_true.mp {pid}_link_responses r hr
+  rw [hx] at h
+  exact {pid}_checked.roundtrip_response (by simpa using h) hv hw
+
+#print axioms {pid}_checked
+#print axioms {pid}_metamodel_type
+#print axioms {pid}_metamodel_structures
+#print axioms {pid}_metamodel_requests
+#print axioms {pid}_metamodel_notifications
+#print axioms {pid}_metamodel_responses
 #print axioms {pid}_T1_progs
 #print axioms {pid}_T1_excluded_are_rejected
 #print axioms {pid}_T1_classes
@@ -235,8 +304,10 @@ example : (match structTy Gen.env 30 (.cls n!"OptionalVersionedTextDocumentIdent
 #print axioms {pid}_constructor_path
 """
     names = [f"{pid}_T1_progs", f"{pid}_T1_excluded_are_rejected", f"{pid}_T1_classes", f"{pid}_structure_total", f"{pid}_T1_roots",
-             f"{pid}_T2_classes", f"{pid}_unstructure_total", f"{pid}_roundtrip", f"{pid}_constructor_path"]
-    return [[genbad], layer + [progs], [(f"{pid}T1", final)]], names
+             f"{pid}_T2_classes", f"{pid}_unstructure_total", f"{pid}_roundtrip", f"{pid}_constructor_path",
+             f"{pid}_checked", f"{pid}_metamodel_type", f"{pid}_metamodel_structures", f"{pid}_metamodel_requests",
+             f"{pid}_metamodel_notifications", f"{pid}_metamodel_responses"]
+    return [[genbad], [genlink], layer + [progs] + llayer + [linkmsgs], [(f"{pid}T1", final)]], names
 
 
 def localise_total(ctx):
@@ -250,7 +321,7 @@ def localise_total(ctx):
         n = int(m.group(0))
         b = n.to_bytes((n.bit_length() + 7) // 8, "big")
         return '"' + b[1:].decode("utf8", "replace") + '"' if b[:1] == b"\x01" and n > 300 else m.group(0)
-    return [re.sub(r"\b\d{5,}\b", dec, l).replace("LspVerif.PyTy.", "") for l in p.stdout.splitlines() if l.startswith(("PROG", "CLS"))]  # CLS, CLSU
+    return [re.sub(r"\b\d{5,}\b", dec, l).replace("LspVerif.PyTy.", "") for l in p.stdout.splitlines() if l.startswith(("PROG", "CLS", "STRUCT-NOT", "MESSAGE-NOT"))]
 
 
 def validity_stream(ctx, S):
@@ -261,12 +332,24 @@ def validity_stream(ctx, S):
     main = common.write_module(ctx.work, "MainRep", MAIN_REP)
     out = common.lean_run(ctx.work, main, text).split("\n")[:-1]
     cnt = {}
+    cnt_v = {}
     problems = []
     for (name, j), o in zip(vals, out):
-        cnt[o] = cnt.get(o, 0) + 1
-        if o not in ("rep:true nrel:true outrep:true", "rep:excluded", "struct-err", "unspecified"):
+        cnt[o.partition(" wf:")[0]] = cnt.get(o.partition(" wf:")[0], 0) + 1
+        core, _, tag = o.partition(" wf:")
+        # tag = "true valid:<true|false|na>": the hypothesis of the link theorem (distinct keys, closed metamodel validity) on this value
+        cnt_v[tag] = cnt_v.get(tag, 0) + 1
+        if core not in ("rep:true nrel:true outrep:true", "rep:excluded", "struct-err", "unspecified"):
             problems.append((name, j, o))
+        elif tag not in ("true valid:true",):
+            problems.append((name, j, "generated metamodel-valid value is not valid in the Lean reading (Spec/Link.lean validTyC): " + o))
     ctx.dist["typed_reading_of_generated_valid_values"] = cnt
+    ctx.dist["closed_metamodel_validity_of_generated_valid_values"] = cnt_v
+    bad_roots = {}
+    for n_, j_, o_ in problems:
+        bad_roots[n_] = bad_roots.get(n_, 0) + 1
+    if bad_roots:
+        ctx.notes.append("roots with generated values outside the hypothesis: " + json.dumps(dict(sorted(bad_roots.items(), key=lambda kv: -kv[1])[:25])))
     ctx.corr["evaluations"] += len(vals)
     return problems, cnt
 
